@@ -843,7 +843,7 @@ type wsClient struct {
 	NFrames int
 }
 
-func (c *Client) openWS(query string) (streamConn, *Resp) {
+func (c *Client) openWS(query string, extra ...map[string]string) (streamConn, *Resp) {
 	sconn, cconn := pipe(c.w.clientAddr(c.name))
 	if len(c.sp.Frag) > 0 {
 		sconn.in.frag = c.sp.Frag
@@ -857,8 +857,18 @@ func (c *Client) openWS(query string) (streamConn, *Resp) {
 	if c.w.Sc.Opts.PMD {
 		h["Sec-WebSocket-Extensions"] = "permessage-deflate; server_no_context_takeover; client_no_context_takeover"
 	}
+	pth := c.path()
+	for _, m := range extra {
+		for k, v := range m {
+			if k == ":path" {
+				pth = v
+				continue
+			}
+			h[k] = v
+		}
+	}
 	c.lat()
-	r := c.w.serve(c.w.H, c.name, ReqSpec{Method: "GET", Path: c.path(), Query: query, Hdr: h, Conn: sconn})
+	r := c.w.serve(c.w.H, c.name, ReqSpec{Method: "GET", Path: pth, Query: query, Hdr: h, Conn: sconn})
 	if !r.Hijacked {
 		cconn.Close()
 		return nil, r
